@@ -27,7 +27,7 @@ TIERS = {
 KINDS = ['int64', 'int32', 'float64', 'float32', 'bool', 'str_obj', 'str_pd3', 'string_ext', 'cat', 'dt_ns', 'dt_us',
          'Int64', 'boolean', 'Float64', 'dateobj']
 MUTS = ['copy', 'copy', 'copy', 'value', 'value', 'null_to_value', 'value_to_null', 'float_small', 'float_large', 'rename', 'retype',
-        'move', 'drop', 'add_col', 'add_row', 'remove_row', 'swap_rows', 'retype_and_value', 'object_lookalike']
+        'move', 'drop', 'add_col', 'add_row', 'remove_row', 'swap_rows', 'retype_and_value', 'object_lookalike', 'retype_family']
 ENTRIES = ['check_dataframe', 'check_dataframe', 'assertDataFramesEqual', 'assertDataFrameCorrect-parquet',
            'assertDataFrameCorrect-csv', 'assertOnDisk-parquet', 'assertOnDisk-csv', 'assertOnDiskList-parquet', 'assertOnDiskList-csv']
 RULE = ('case = reference frame (unique int key + 1-4 columns over 15 dtypes incl. object/str/string/categorical strings, '
@@ -193,6 +193,20 @@ def gen_case(rng, i):
                 tact['values'] = [int(x) for x in tact['values']]
                 tact['values'][r] = 2 if v else -1
             mut.update(col=tname, row=r, to=tact['kind'], delta=abs(tact['values'][r] - (int(v) if isinstance(v, bool) else v)))
+    elif mk == 'retype_family':
+        # a NUMERIC actual column where the reference has a datetime or (non-object) text column: no matching level calls these
+        # the same type - 'permissive' is about bool/int/float among themselves, 'medium' about object against what object may hold
+        cand = [c for c in cols[1:] if c['kind'] in ('dt_ns', 'dt_us', 'string_ext', 'str_pd3')]
+        if not cand:
+            mut = {'kind': 'copy'}
+        else:
+            target = rng.choice(cand)
+            tname = target['name']
+            tact = [c for c in act['cols'] if c['name'] == tname][0]
+            tact['kind'] = rng.choice(['int64', 'float64'])
+            tact['values'] = [t if tact['kind'] == 'int64' else t + 0.5 for t in range(n)]
+            tact['nulls'] = 'none'
+            mut.update(col=tname, to=tact['kind'], frm=target['kind'])
     elif mk == 'object_lookalike':
         # same dtype (object), same text when printed, different VALUES: date objects against their ISO strings
         objs = [c for c in cols[1:] if c['kind'] == 'dateobj' and any(v is not None for v in c['values'])]
@@ -247,6 +261,12 @@ def gen_case(rng, i):
     opts = {'check_data': optval(), 'check_types': optval(), 'check_order': optval(), 'precision': p,
             'type_matching': rng.choice([None, None, 'strict', 'medium', 'permissive']),
             'sortby': rng.choice([None, None, None, ['k']]), 'condition': rng.choice([None, None, None, {'k_lt': rng.randint(20, 90)}])}
+    if mut['kind'] == 'retype_family' and rng.random() < 0.7:
+        # the type check alone has to notice: the column's values are left out of the data check
+        opts['check_data'] = rng.choice([False, [c for c in ['k'] + data_cols if c != mut['col']]])
+        opts['type_matching'] = rng.choice(['medium', 'permissive', 'permissive'])
+        if rng.random() < 0.5:
+            opts['check_types'] = None
     entry = rng.choice(ENTRIES)
     if entry == 'check_dataframe' and rng.random() < 0.5:
         opts['check_extra_cols'] = rng.choice([None, False])
